@@ -1,6 +1,6 @@
 (* C14 non-vacuity: concrete inputs meeting the hypotheses of each theorem, and
    the sensitivity of the concurrency model (the code before the fix IS racy in it). *)
-From CJ Require Import Common.Base C14.Model C14.ConcModel C14.Main C14.SurjProofs.
+From CJ Require Import Common.Base C14.Model C14.ConcModel C14.Main C14.SurjProofs C14.LifeModel C14.LifeProofs.
 
 Definition ex_cfg : config :=
   [ {| weight := 9; nets := Some [Some (mk_cidr V4 3229269504 24); Some (mk_cidr V6 (42540765935913617771317959390390124544) 64)]; rand_port := true |};
@@ -58,3 +58,77 @@ Example ex_old_code_racy :
   exists r, result_of (run alfg_seed alfg_int63 (conc_init true (go_rand_new 7) ex_calls) ex_sched) 0 = Some r /\
             r <> select ex_seed (Some ex_net8) 1 V4.
 Proof. eexists. split; [vm_compute; reflexivity|vm_compute; discriminate]. Qed.
+
+(* ---- the selector over the station's lifetime ---- *)
+(* the station starts with generations {1, 2}; the operator retires generation 2 and moves generation 1 *)
+Definition ex_f0 : file := [ (1%Z, ex_cfg); (2%Z, ex_net8) ].
+Definition ex_f1 : file := [ (1%Z, ex_lz) ].
+Definition ex_f2 : file := [ (3%Z, ex_cfg); (1%Z, ex_lz) ].
+
+Example ex_files_wellkeyed : wellkeyed ex_f0 /\ wellkeyed ex_f1 /\ wellkeyed ex_f2.
+Proof. repeat split; apply wellkeyedb_ok; vm_compute; reflexivity. Qed.
+
+(* the hypotheses of C14_lifecycle_in_force are met by a history with a retired generation, a failed load and an
+   added generation; selections succeed where the configuration in force has the generation and fail where not *)
+Definition ex_history : list event :=
+  [ ESelect ex_seed 2 2 V4; EReload (Some ex_f1); ESelect ex_seed 2 2 V4; ESelect ex_seed 1 2 V4;
+    EReload None; ESelect ex_seed 1 1 V4; EReload (Some ex_f2); ESelect ex_seed 3 4 V6; ESelect ex_seed 2 0 V4 ].
+Example ex_history_wellkeyed : loads_wellkeyed ex_history.
+Proof.
+  intros f Hin. cbn in Hin.
+  repeat (destruct Hin as [Hin|Hin]; [try discriminate; inversion Hin; subst; apply wellkeyedb_ok; vm_compute; reflexivity|]).
+  contradiction.
+Qed.
+Example ex_history_results :
+  match fst (station_run (from_file ex_f0) ex_history) with
+  | [Some (Ok _); None; Some (Err EGeneration); Some (Ok _); None; Some (Ok _); None; Some (Ok _); Some (Err EGeneration)] => True
+  | _ => False
+  end.
+Proof. vm_compute. exact I. Qed.
+Example ex_in_force : in_force ex_f0 ex_history = ex_f2.
+Proof. reflexivity. Qed.
+
+(* REFUTED VARIANT: a reload that copies the new file's generations INTO the held selector (UpdateGeneration per
+   generation) keeps serving the retired generation 2 -- from 10.0.0.0/8, which no generation of the
+   configuration in force contains -- where the code answers "generation number not recognized" *)
+Example ex_merge_reload_serves_retired_generation :
+  exists p, nth_error (fst (merge_run (from_file ex_f0) [EReload (Some ex_f1); ESelect ex_seed 2 2 V4])) 1 = Some (Some (Ok p)) /\
+            file_lookup (in_force ex_f0 [EReload (Some ex_f1)]) 2 = None /\
+            nth_error (fst (station_run (from_file ex_f0) [EReload (Some ex_f1); ESelect ex_seed 2 2 V4])) 1
+            = Some (Some (Err EGeneration)).
+Proof. eexists. split; [vm_compute; reflexivity|split; reflexivity]. Qed.
+
+(* the same with selections in flight: writing the reloaded generations into the live object (inplace = true)
+   lets a selection that fetched the selector AFTER the reload still be served from the retired generation *)
+Example ex_inplace_reload_serves_retired_generation :
+  exists p, nth_error (fst (crun true (cinit ex_f0) [CReload (Some ex_f1); CFetch 0; CSelect 0 ex_seed 2 2 V4])) 2 = Some (Some (Ok p)) /\
+            force_at_fetch ex_f0 None 0 [CReload (Some ex_f1); CFetch 0] = Some ex_f1 /\ file_lookup ex_f1 2 = None.
+Proof. eexists. split; [vm_compute; reflexivity|split; reflexivity]. Qed.
+(* ... and changes, under its feet, what a selection sees that fetched the selector BEFORE the reload *)
+Example ex_inplace_reload_changes_fetched_selector :
+  nth_error (fst (crun true (cinit ex_f0) [CFetch 0; CReload (Some ex_f1); CSelect 0 ex_seed 1 2 V4])) 2
+  <> nth_error (fst (crun false (cinit ex_f0) [CFetch 0; CReload (Some ex_f1); CSelect 0 ex_seed 1 2 V4])) 2.
+Proof. vm_compute. discriminate. Qed.
+
+(* why C14_load_gives_file asks for distinct keys: two keys that Atoi maps to the same number (`1` and `01`) are
+   loaded as generations 1 and 2 in whichever order the map iteration yields them *)
+Example ex_colliding_keys_depend_on_order :
+  lookup (from_file [ (1%Z, ex_cfg); (1%Z, ex_lz) ]) 1 = Some ex_cfg /\
+  lookup (from_file [ (1%Z, ex_lz); (1%Z, ex_cfg) ]) 1 = Some ex_lz /\
+  lookup (from_file [ (1%Z, ex_lz); (1%Z, ex_cfg) ]) 2 = Some ex_cfg.
+Proof. vm_compute. repeat split. Qed.
+
+(* the API: AddGeneration on a taken index (also one that RemoveGeneration left as a nil entry) goes to the next
+   free index; the hypothesis of C14_api_add_keeps_others holds *)
+Example ex_api_add :
+  let s := remove_generation (from_file ex_f0) 2 in
+  snd (add_generation s 2 (Some ex_lz)) = 3 /\ snd (add_generation s (-1) (Some ex_lz)) = 3 /\
+  snd (add_generation s 7 (Some ex_lz)) = 7 /\ max_key s + 1 < uint_mod /\
+  lookup (fst (add_generation s 2 (Some ex_lz))) 2 = None /\ lookup (fst (add_generation s 2 (Some ex_lz))) 1 = Some ex_cfg.
+Proof. vm_compute. repeat split. Qed.
+Example ex_api_history :
+  match fst (arun (from_file ex_f0) [ASelect ex_seed 2 2 V4; ARemove 2; ASelect ex_seed 2 2 V4; AUpdate 2 (Some ex_cfg); ASelect ex_seed 2 2 V4]) with
+  | [OSel (Ok a); ODone; OSel (Err EGeneration); ODone; OSel (Ok b)] => p_bytes a <> p_bytes b
+  | _ => False
+  end.
+Proof. vm_compute. discriminate. Qed.
